@@ -565,47 +565,85 @@ func presentationOnly(c *an.Ctx, rule string) {
 	if !r.ok {
 		return
 	}
-	// consumers of the format in Run
-	var fmtLoad ssa.Value
-	an.EachInstr(r.run, func(in ssa.Instruction) {
-		if u, ok := in.(*ssa.UnOp); ok && u.Op == token.MUL && an.FieldProv(u) == "TaskRunner.OutputFormat" {
-			fmtLoad = u
-		}
-	})
-	if fmtLoad == nil {
-		c.Und(rule, an.Short(r.run)+":format", r.run.Pos(), "Run does not read TaskRunner.OutputFormat")
+	// consumers of the format: wherever TaskRunner.OutputFormat is read in Run's closure, the value
+	// may only flow (through locals, φ, helper results) into NewTaskOutput's format argument
+	var loads []ssa.Value
+	for _, fn := range r.scope {
+		an.EachInstr(fn, func(in ssa.Instruction) {
+			if u, ok := in.(*ssa.UnOp); ok && u.Op == token.MUL && an.FieldProv(u) == "TaskRunner.OutputFormat" {
+				loads = append(loads, u)
+			}
+		})
+	}
+	if len(loads) == 0 {
+		c.Und(rule, an.Short(r.run)+":format", r.run.Pos(), "TaskRunner.Run's closure does not read TaskRunner.OutputFormat")
 		return
 	}
 	okUse := true
+	badUse := ""
 	seen := map[ssa.Value]bool{}
-	var walk func(v ssa.Value)
-	walk = func(v ssa.Value) {
-		if seen[v] || v.Referrers() == nil {
+	var walk func(v ssa.Value, depth int)
+	walk = func(v ssa.Value, depth int) {
+		if seen[v] || v.Referrers() == nil || depth > 12 {
 			return
 		}
 		seen[v] = true
 		for _, ref := range *v.Referrers() {
 			switch x := ref.(type) {
 			case *ssa.Phi:
-				walk(x)
+				walk(x, depth+1)
 			case *ssa.Call:
-				if x != r.newOutputCall {
-					okUse = false
+				if _, ok := an.IsCallTo(x, fnNewTaskOutput); ok {
+					continue
 				}
+				okUse = false
+				badUse = an.ShortCallee(&x.Call)
 			case *ssa.DebugRef:
 			case *ssa.Store:
 				if a, ok := x.Addr.(*ssa.Alloc); ok {
-					walk(a)
+					walk(a, depth+1)
+				} else {
+					okUse = false
+					badUse = "store to " + an.Prov(x.Addr)
 				}
 			case *ssa.UnOp:
-				walk(x)
+				walk(x, depth+1)
+			case *ssa.Return:
+				// a helper hands the value back: follow it at the helper's call sites
+				fn := x.Parent()
+				idx := -1
+				for i, rv := range x.Results {
+					if rv == v {
+						idx = i
+					}
+				}
+				for _, site := range p.CallSitesOf(fn) {
+					val := site.Value()
+					if val == nil {
+						continue
+					}
+					if fn.Signature.Results().Len() == 1 {
+						walk(val, depth+1)
+						continue
+					}
+					if refs := val.Referrers(); refs != nil {
+						for _, rr := range *refs {
+							if ex, ok := rr.(*ssa.Extract); ok && ex.Index == idx {
+								walk(ex, depth+1)
+							}
+						}
+					}
+				}
 			default:
 				okUse = false
+				badUse = fmt.Sprintf("%T", ref)
 			}
 		}
 	}
-	walk(fmtLoad)
-	c.Check(okUse, rule, an.Short(r.run)+":format-consumers", fmtLoad.Pos(), "the format reaches NewTaskOutput and nothing else", "the output format influences something besides the choice of decorator in Run")
+	for _, l := range loads {
+		walk(l, 0)
+	}
+	c.Check(okUse, rule, an.Short(r.run)+":format-consumers", loads[0].Pos(), "the format reaches NewTaskOutput and nothing else", "the output format influences something besides the choice of decorator: "+badUse)
 	// Finish's error is not returned
 	for _, fn := range an.WithAnon(r.run) {
 		for _, ci := range an.CallsIn(fn, fnOutFinish) {
